@@ -527,6 +527,9 @@ def _singleton_key(t):
     """``{k}`` / ``frozenset({k})`` / ``frozenset((k,))`` -> term of k."""
     if t[0] == "display" and t[1] in ("set", "tuple", "list") and len(t[2]) == 1 and t[2][0][0] != "star":
         return t[2][0]
+    if t[0] == "display" and t[1] in ("set", "tuple", "list") and len(t[2]) > 1 and all(x[0] != "star" for x in t[2]):
+        # several keys added / removed at once: one key term of its own kind (never equal to the key that is tested)
+        return ("keys", tuple(t[2]))
     if t[0] == "call" and t[1] in (("builtin", "frozenset"), ("builtin", "set")) and len(t[2]) == 1:
         return _singleton_key(t[2][0])
     return None
